@@ -578,6 +578,23 @@ class concat_with:
     }
 
 
+_REPLAY_APPEND_REJECTED = '''
+import numpy as np
+from acryo import Molecules
+me = Molecules(np.arange(9, dtype=float).reshape(3, 3), features={"f0": [1.5, 2.5, 3.5]})
+other = Molecules(np.ones((2, 3)))                       # molecules without any feature
+try:
+    me.append(other)
+    print("append of feature-less molecules to a table with features was accepted; lengths:", len(me.pos), len(me.rotator), me.features.shape)
+    ok = len(me.pos) == len(me.rotator) == me.features.shape[0]
+except ValueError as e:
+    print("append rejected (ValueError); afterwards: positions", len(me.pos), "rotations", len(me.rotator), "feature rows", me.features.shape[0])
+    ok = len(me.pos) == 3 and len(me.rotator) == 3 and me.features.shape[0] == 3
+print("clause holds natively (a rejected append leaves the object unchanged):", ok)
+print("CONFIRMED" if not ok else "NOT-CONFIRMED"); sys.exit(1 if not ok else 0)
+'''
+
+
 @contract("acryo.molecules.core:Molecules.append", props=["C12"])
 class mol_append:
     """in-place concatenation: afterwards self holds its old molecules followed by the other's, each complete, and the
@@ -589,6 +606,9 @@ class mol_append:
     imports = _IMPORTS
     native_call = "(lambda me, ot: (me.copy(), me.append(ot)))(args['self'], args['other'])"
     may_raise = {"ValueError": "has_features(self) != has_features(other)"}
+    # "... or the call is rejected and self is unchanged": nothing of self has been written when the error is raised
+    on_raise = {"ValueError": {"self_unchanged": "writes_to(self) == 0"}}
+    replay = staticmethod(lambda ob, meta, model: _REPLAY_APPEND_REJECTED if "on_raise" in ob else None)
     native = {"returns_self": "result[1] is self",
               "count": "len(self) == len(result[0]) + len(other)", "invariant": "_native_invariant(self)",
               "rows_of_self": "_native_concat_rows(self, [result[0], other])",
